@@ -143,8 +143,10 @@ def verify_compare(rep, u, rule='INV-5'):
            {'problems': sorted(set(probs))[:3]}, construct='all-elements')
 
 
-def fills(rep, u, rule='INV-4'):
+def fills(rep, u, rule='INV-4', only=None):
     for fn, (meth, field, nargs) in UNCACHED.items():
+        if only is not None and fn not in only:
+            continue
         probs, kinds = csem.cache_protocol(u, fn)
         if not probs and not {'hit', 'miss', 'error'} <= kinds:
             probs = ['path kinds %s' % sorted(kinds)]
@@ -155,6 +157,8 @@ def fills(rep, u, rule='INV-4'):
                    field, '[name]' if nargs == 3 else '',
                    ' (the bare spec for one required)' if nargs == 3 else '', meth[4:])
                if not probs else {'problems': sorted(set(probs))[:3]}, construct='fill')
+    if only is not None and '_getcache' not in only:
+        return
     # _getcache reads the _cache field, keyed provided then name
     probs = []
     n = 0
